@@ -29,7 +29,9 @@ func ixSpec(name string, withIndexes bool) adapt.TableSpec {
 
 var (
 	ixHashPool  = []string{"p", "p.q", "pq"}
-	ixRangePool = []string{"1", "10", "9", "a", "ab", "b"}
+	// "\uffff" and the 4-byte character after it separate UTF-8 byte order (DynamoDB's order) from UTF-16 code-unit
+	// order and from any bound built with a BMP sentinel character
+	ixRangePool = []string{"1", "10", "9", "a", "ab", "b", "\uffff", "\U0001F44D"}
 	ixGPool     = []string{"x", "y"}
 	ixSPool     = []string{"1", "10", "9"}
 	ixBig       = false
@@ -60,7 +62,7 @@ func useBigPools(r *rand.Rand) func() {
 		case 2:
 			ixRangePool = append(ixRangePool, long("k", 100)+fmt.Sprintf("%03d", i))
 		default:
-			ixRangePool = append(ixRangePool, fmt.Sprintf("é%d", i))
+			ixRangePool = append(ixRangePool, fmt.Sprintf("%s%d", []string{"é", "日", "\uffff", "\U0001F44D", "\U0010FFFF"}[(i/4)%5], i))
 		}
 	}
 	ixGPool = []string{"x", "y", long("g", 70)}
